@@ -63,7 +63,17 @@ def build(args):
         mother, mother_arg = rng.choice(pdg_mothers())
     else:
         mother = mother_arg = rng.choice(labels)
-    text = f"Decay {mother}\n"
+    text = ""
+    if cid % 3 != 1:
+        # another table first whose mother is a spelling related to this one (D+ before D*+, Omega before omega, eta before
+        # eta'): the table printed for a name is that name's
+        decoys = [w for w in decio.related_variants(mother) if len(w) > 1 and decio.label_ok(w)]
+        if pdg:
+            from decaylanguage.utils.particleutils import charge_conjugate_name as _ccn
+            decoys = [w for w in decoys if w != _ccn(mother)]          # the conjugate's table is made by CDecay below
+        if decoys:
+            text = f"Decay {rng.choice(decoys)}\n  1.0 {rng.choice(labels)} {rng.choice(labels)} PHSP;\nEnddecay\n"
+    text += f"Decay {mother}\n"
     for i, ln in enumerate(lines):
         parts = [spell[ln["r"]]] + ds[i] + (["PHOTOS"] if ln["ph"] else []) + [models[i]] + params[i]
         text += "  " + " ".join(parts) + ";\n"
